@@ -21,7 +21,7 @@ func init() {
 	vf.Register(&vf.Prop{
 		ID: "C16", Level: "model_checking",
 		Rule: "every well-nested history in which 19 block-forming constructs (closure as statement / as := value / as var initialiser / as call argument, block, vblock, if-then, if-else, if with init, for, for with post, range, switch case/default, type-switch case, select comm/default, inline closure, labeled for) are nested to depth D, " +
-			"with 0-2 simple statements (call, define+use, 3-operand expression) before and after the nested construct at every level, in two current-file regimes; plus all chains of depth 8 over one representative per context-saving mechanism (block, vblock, function body, initialiser). " +
+			"with 0-2 simple statements (call, define+use, 3-operand call; under the second rotation: constant expression statement, receive statement, send) before and after the nested construct at every level, in two current-file regimes; plus all chains of depth 8 over one representative per context-saving mechanism (block, vblock, function body, initialiser). " +
 			"A pushdown model predicts, for every operation, the operand-stack delta and, for every construct, the frame (stack height, scope, current function, vblock flag, label visibility) to be restored; the real builder is compared with the model after EVERY operation. " +
 			"Finally the package must be written and type-check. state = construct chain prefix; non-trivial = chains of depth>=2",
 		Assumptions: []string{"documented arities as listed in the driver table (op wrapper) are the specification of 'documented arity'", "labels are function-scoped: a label of the outer function is invisible inside a function literal"},
@@ -47,6 +47,7 @@ type harness struct {
 	ops   int
 	trace []string
 	bases []int
+	rot   int
 }
 
 func (h *harness) snap() frame {
@@ -86,7 +87,24 @@ func (h *harness) stmtBoundary(what string) {
 
 func (h *harness) simple(i int) {
 	cb := h.cb
-	switch i % 3 {
+	switch (i + h.rot) % 6 {
+	case 3: // 1 + 2 as a statement: a constant expression statement is dropped, its operand must still be popped
+		h.op("Val(1)", 1, func() { cb.Val(1) })
+		h.op("Val(2)", 1, func() { cb.Val(2) })
+		h.op("BinaryOp(+)", -1, func() { cb.BinaryOp(token.ADD) })
+		h.op("EndStmt", -1, func() { cb.EndStmt() })
+		h.stmtBoundary("const-expr-stmt")
+	case 4: // <-env.VCh
+		h.op("Val(VCh)", 1, func() { cb.Val(h.env.Ref("VCh")) })
+		h.op("UnaryOp(<-)", 0, func() { cb.UnaryOp(token.ARROW) })
+		h.op("EndStmt", -1, func() { cb.EndStmt() })
+		h.stmtBoundary("recv-stmt")
+	case 5: // env.VCh <- 1
+		h.op("Val(VCh)", 1, func() { cb.Val(h.env.Ref("VCh")) })
+		h.op("Val(1)", 1, func() { cb.Val(1) })
+		h.op("Send", -2, func() { cb.Send() })
+		h.op("EndStmt", 0, func() { cb.EndStmt() })
+		h.stmtBoundary("send")
 	case 0: // env.FN()
 		h.op("Val(FN)", 1, func() { cb.Val(h.env.Ref("FN")) })
 		h.op("Call(0)", 0, func() { cb.Call(0) })
@@ -288,6 +306,7 @@ type history struct {
 	Pre   int   `json:"pre"`
 	Post  int   `json:"post"`
 	Files int   `json:"files"`
+	Rot   int   `json:"rot,omitempty"` // rotation of the simple-statement kinds (0: call/define/call3 first, 3: const-expr/recv/send first)
 }
 
 func (hs history) String(cs []construct) string {
@@ -295,7 +314,7 @@ func (hs history) String(cs []construct) string {
 	for _, i := range hs.Chain {
 		n = append(n, cs[i].name)
 	}
-	return fmt.Sprintf("%s pre=%d post=%d files=%d", strings.Join(n, ">"), hs.Pre, hs.Post, hs.Files)
+	return fmt.Sprintf("%s pre=%d post=%d files=%d rot=%d", strings.Join(n, ">"), hs.Pre, hs.Post, hs.Files, hs.Rot)
 }
 
 var theImp *fixture.Importer
@@ -306,7 +325,7 @@ func execute(hs history) (fails []string, ops int, text string) {
 	}
 	cs := constructs()
 	b := gx.New(theImp, gx.Options{DefaultGo: ""})
-	h := &harness{b: b}
+	h := &harness{b: b, rot: hs.Rot}
 	out := gx.Try(func() {
 		pkg := b.Pkg
 		h.env = pkg.Import(ex.EnvPath)
@@ -417,7 +436,15 @@ func max(a, b int) int {
 	return b
 }
 
-func each(thorough bool, yield func(hs history)) {
+func each(thorough bool, yield0 func(hs history)) {
+	// every history with at least one simple statement is run under both rotations of the statement kinds
+	yield := func(hs history) {
+		yield0(hs)
+		if hs.Pre+hs.Post > 0 {
+			hs.Rot = 3
+			yield0(hs)
+		}
+	}
 	n := len(constructs())
 	depth := 3
 	if thorough {
@@ -432,7 +459,7 @@ func each(thorough bool, yield func(hs history)) {
 					if files > 0 && (pp != [2]int{1, 0} || len(chain) < 2) {
 						continue
 					}
-					yield(history{append([]int{}, chain...), pp[0], pp[1], files})
+					yield(history{Chain: append([]int{}, chain...), Pre: pp[0], Post: pp[1], Files: files})
 				}
 			}
 		}
@@ -460,7 +487,7 @@ func each(thorough bool, yield func(hs history)) {
 			c[i] = reps[x%len(reps)]
 			x /= len(reps)
 		}
-		yield(history{c, 1, 1, 0})
+		yield(history{Chain: c, Pre: 1, Post: 1})
 	}
 }
 
